@@ -62,10 +62,13 @@ def extract(repo=None, features=None, quiet=True):
     """Return directory holding <crate>.json for the current tree of `repo`."""
     repo = repo or REPO
     feat = ",".join(features or [])
-    th = tree_hash(repo, extra="feat=" + feat + ";repo=" + ("main" if repo == REPO else repo))
+    # the facts depend only on the sources (library targets of the workspace): copies with identical contents share one extraction
+    th = tree_hash(repo, extra="feat=" + feat)
     out_dir = os.path.join(CACHE, "facts", th)
     os.makedirs(os.path.join(CACHE, "facts"), exist_ok=True)
-    lock_path = os.path.join(CACHE, "extract.lock")
+    # one lock per tree: checks of the same tree wait for the one extraction, different trees (scratch copies, each with its own target
+    # directory) are extracted in parallel
+    lock_path = os.path.join(CACHE, "extract-%s.lock" % th)
     with open(lock_path, "w") as lock:
         fcntl.flock(lock, fcntl.LOCK_EX)
         if all(os.path.exists(os.path.join(out_dir, c + ".json")) for c in CRATES):
@@ -114,11 +117,18 @@ def extract(repo=None, features=None, quiet=True):
         os.rename(tmp_out, out_dir)
         if not quiet:
             print("facts extracted in %.1fs -> %s" % (time.time() - t0, out_dir))
-        # keep the cache small: drop fact dirs other than the 6 most recent
+        # keep the cache small (≈5 MB per tree): drop fact dirs other than the 200 most recent — enough for a 16-way self-test run, in which
+        # every scratch tree is read by 20 checks before it is discarded
         root = os.path.join(CACHE, "facts")
-        ds = sorted((os.path.getmtime(os.path.join(root, d)), d) for d in os.listdir(root))
-        for _, d in ds[:-6]:
-            shutil.rmtree(os.path.join(root, d), ignore_errors=True)
+        try:
+            ds = sorted((os.path.getmtime(os.path.join(root, d)), d) for d in os.listdir(root) if not d.endswith(".partial"))
+            for _, d in ds[:-200]:
+                shutil.rmtree(os.path.join(root, d), ignore_errors=True)
+            for f in os.listdir(CACHE):
+                if f.startswith("extract-") and f.endswith(".lock") and time.time() - os.path.getmtime(os.path.join(CACHE, f)) > 6 * 3600:
+                    os.unlink(os.path.join(CACHE, f))
+        except OSError:
+            pass
         return out_dir
 
 
